@@ -89,6 +89,7 @@ type serverChannelState struct {
 
 func newServerChannel(ch mpx.Channel, req prpc.Request) *serverChannel {
 	s := acquireServerState()
+	vpoolGetServer(s)
 	s.ch = ch
 	s.method = requestMethod(s.method, req)
 	s.recvReq = req
@@ -385,6 +386,7 @@ func acquireServerState() *serverChannelState {
 
 func releaseServerState(s *serverChannelState) {
 	s.reset()
+	vpoolPutServer(s)
 	serverStatePool.Put(s)
 }
 
